@@ -11,4 +11,4 @@ Extraction "../ocaml/loom_model.ml"
   branch_thread push_load branch_load branch_spurious backtrack
   explore_state critical skip_branch path_new
   vv_join vv_le vv_lt vv_pcmp apply_rmw
-  ref_outcomes ref_outcomes_regions loom_run std_run op_ok in_range rc11_outcomes rc11_enough_fuel.
+  ref_outcomes ref_outcomes_regions ref_outcomes_bounded loom_run std_run op_ok in_range rc11_outcomes rc11_enough_fuel.
